@@ -59,7 +59,7 @@ class ParsedAnsiControlSequenceString:
             allow_empty_terminator - allow a string that is not terminated to be counted as a control sequence
             acceptable_terminators - acceptable string of terminators (default: all acceptable)
         '''
-        s = str(s) # In case this is an AnsiStr, get the raw string rather than its overrides
+        s = str.__str__(s) # In case this is an AnsiStr (or another str subclass), get the raw string rather than its overrides
         self._s = ''
         # Dictionary mapping index to a list of applied control sequences for that index
         self.sequences:Dict[int,List[AnsiControlSequence]] = {}
